@@ -194,17 +194,40 @@ def install_table(events, toks, out_path, fault, sink=None):
             sink.flush()
             os.fsync(sink.fileno())
 
+    writer = {"frame": None}
+
+    def same_writer_call():
+        """does this mutation belong to the writer call that made the previous one?  The writer call is the innermost frame of
+        nuspacesim code above the mutation (StagedWriter.__call__ / add_meta in the pinned tree); it is the same call iff that very
+        frame object is still on the stack.  A writer that sets several header keywords and rewrites the file once at its end is
+        one boundary, not several."""
+        f = sys._getframe(2)
+        stack = []
+        while f is not None:
+            stack.append(f)
+            f = f.f_back
+        mine = next((fr for fr in stack if os.sep + "nuspacesim" + os.sep in fr.f_code.co_filename
+                     and not fr.f_code.co_filename.startswith(VERIF)), None)
+        prev = writer["frame"]
+        writer["frame"] = mine
+        return prev is not None and any(fr is prev for fr in stack)
+
     def before_mutation(kind, names, rows, dig):
+        cont = same_writer_call()
+        snap = snapshot_file(out_path, toks)
+        if cont:
+            # not a boundary: no fault is injected here and the boundary counter does not advance
+            emit({"kind": kind, "names": list(names), "rows": int(rows), "dig": dig, "disk": snap, "k": counter["k"], "cont": True})
+            return
         counter["k"] += 1
         k = counter["k"]
-        snap = snapshot_file(out_path, toks)
         if fault and fault[0] == "boundary" and fault[1] == k:
             if fault[2] == "exit":
                 emit({"kind": "End", "outcome": "dead", "injected": True, "disk": snap, "mem": dict(ABSENT), "k": k})
                 os._exit(9)
             emit_pending["fault_at"] = k
             raise InjectedFault(f"boundary {k}")
-        emit({"kind": kind, "names": list(names), "rows": int(rows), "dig": dig, "disk": snap, "k": k})
+        emit({"kind": kind, "names": list(names), "rows": int(rows), "dig": dig, "disk": snap, "k": k, "cont": False})
 
     emit_pending = {}
     primary = {}
